@@ -11,8 +11,10 @@ components    from_dict(to_dict(x)) == x, json.dumps(to_dict(x)) succeeds, json.
 generic_code  g = convert_model(M, 'generic'); read_model_from_string(g.code) == g and the code is a fixed point.
 hash_process  a batch of recipes is written to a scratch file; 4 fresh interpreters (PYTHONHASHSEED 0, 1, 2 and
               one drawn by the generator) rebuild every model and print str(ModelHash(M)) together with an
-              order-insensitive content fingerprint computed by this module; equal fingerprints must give
-              equal keys.
+              order-insensitive content fingerprint computed by this module; the key (and the content) must be
+              the same in all of them.  The batch also holds 20-30 generated components (DataInfo with string /
+              mapping categories, descriptors, units; execution steps with tool options; random variables;
+              compartmental systems ...) whose to_dict() JSON text must be identical in all interpreters.
 hash_content  (i) one content reached through two construction histories (M == M' by pharmpy's own ==, same
               dataset, same order-insensitive fingerprint) => same key; name / description / datainfo path
               changes => same key; (ii) exactly one edit (parameter init / bound / fix, rv variance symbol,
@@ -47,7 +49,8 @@ RULE = (
     'A recipe is a start model (ivoral model with two dosing compartments, basic iv/oral, pheno, checked-in test '
     'models; or a synthetic model around a C05 system / builder history) + <=3 modeling transformations (inapplicable '
     'ones are skipped) + optionally CompartmentalSystemBuilder.add_dose of a second dose (Bolus / Infusion) on a dosing compartment (inapplicable '
-    'ones are skipped) + optional dataset edits. hash_process: batches of 8-12 recipes x 4 interpreters. '
+    'ones are skipped) + optionally initial individual estimates (3-25 individuals with ascending / descending / permuted / sparse ids, 1-11 columns incl. '
+    'non-sorted labels) + optionally categories / descriptor / unit annotations of data columns + optional dataset edits. hash_process: batches of 8-12 recipes and 20-30 components x 4 interpreters. '
     'hash_content: builder operations in permuted order, builder history vs direct construction, symbol renaming '
     'there and back (rename_symbols / CompartmentalSystem.subs), transformation followed by its inverse, mapping '
     'order of tool options / dependent variables, metadata changes; nine kinds of single edits. '
@@ -59,8 +62,9 @@ ASSUMPTIONS = [
     'content equality of two models = pharmpy Model.__eq__ and equal datasets (values, columns, index, dtypes) and equal '
     'to_dict() after sorting mapping keys, putting compartments / flows of a CompartmentalSystem in name order and reading 0 and 0.0 as the same number; '
     'pairs that are == but differ in that fingerprint are counted (class eq-but-fingerprint-differs), not flagged',
-    'a recipe whose order-insensitive fingerprint differs between interpreters (a transformation that is itself '
-    'seed dependent) is counted (class seed-dependent-content), not flagged: the property speaks about the key of one model',
+    'hash_process: the same construction steps must give the same key in every interpreter; a difference is reported as '
+    'process-key-differs when the order-insensitive content is the same and as process-content-differs when a construction step '
+    'itself gives a different model depending on PYTHONHASHSEED; to_dict() texts of generated components are compared too',
     'transformations that raise on a model are skipped (the resulting recipe is the model without that step)',
     'sub-process time-outs (900 s per batch) are harness errors',
     'SimulationStep objects with solver / tool options are built with the constructor (SimulationStep.create drops them)',
@@ -144,16 +148,23 @@ def non_json(x, path='$'):
     return f'{path}: value of type {type(x).__name__}'
 
 
-def first_diff(a, b, path='$', strict=False):
+UNORDERED_MAPPINGS = ('tool_options', 'dependent_variables', 'observation_transformation', 'categories')
+
+
+def first_diff(a, b, path='$', strict=False, ordered=False):
+    """first difference of two JSON values; strict: int vs float counts; ordered: the key order of mappings
+    counts too (except below the mappings whose order has no meaning)"""
     if type(a) is not type(b) and (strict or not (isinstance(a, (int, float)) and isinstance(b, (int, float)) and not isinstance(a, bool) and not isinstance(b, bool))):
         return f'{path}: {type(a).__name__} {str(a)[:80]!r} vs {type(b).__name__} {str(b)[:80]!r}'
     if isinstance(a, dict):
         if list(a.keys()) != list(b.keys()):
             if sorted(map(repr, a.keys())) != sorted(map(repr, b.keys())):
                 return f'{path}: keys {list(a.keys())[:8]} vs {list(b.keys())[:8]}'
+            if ordered and path.rsplit('.', 1)[-1] not in UNORDERED_MAPPINGS:
+                return f'{path}: key order {list(a.keys())[:12]} vs {list(b.keys())[:12]}'
         for k in a:
             if k in b:
-                r = first_diff(a[k], b[k], f'{path}.{k}', strict)
+                r = first_diff(a[k], b[k], f'{path}.{k}', strict, ordered)
                 if r:
                     return r
         return None
@@ -161,7 +172,7 @@ def first_diff(a, b, path='$', strict=False):
         if len(a) != len(b):
             return f'{path}: length {len(a)} vs {len(b)}'
         for i, (x, y) in enumerate(zip(a, b)):
-            r = first_diff(x, y, f'{path}[{i}]', strict)
+            r = first_diff(x, y, f'{path}[{i}]', strict, ordered)
             if r:
                 return r
         return None
@@ -413,7 +424,7 @@ def build_cs(cspec, direct_of_final=False, perm=None, eperm=None):
 
 UNITS = ['1', 'mg', 'mg/L', 'kg', 'h', 'L/h', 'ml', 'kg**2', 'mg*h/L', 'd', 'ug/ml', 'cm']
 CNAMES = ['ID', 'TIME', 'AMT', 'DV', 'WGT', 'APGR', 'CMT', 'EVID', 'RATE', 'SEX', 'DVID', 'X1']
-CATS = [None, [1, 2], [0, 1, 2, 3], ['a', 'b'], {'a': 1, 'b': 2}, {'male': 'M', 'female': 'F'}, [], [1.5, 2.5]]
+CATS = [None, [1, 2], [0, 1, 2, 3], ['a', 'b'], {'a': 1, 'b': 2}, {'male': 'M', 'female': 'F'}, [], [1.5, 2.5], ['low', 'mid', 'high', 'unknown'], ['M', 'F', 'U'], {'no': 0, 'yes': 1, 'unknown': 9}]
 
 COLUMN = st.fixed_dictionaries(
     dict(name=_i, type=_i, scale=st.integers(0, 3), unit=_i, cont=st.integers(0, 2), cats=st.integers(0, 23), drop=st.booleans(), dtype=_i, desc=_i)
@@ -792,10 +803,7 @@ def _ops():
         return pm.set_initial_estimates(m, {p.name: v})
 
     def iie(m, a, b):
-        etas = m.random_variables.etas.names[: 1 + a % 2]
-        if not etas:
-            na()
-        return m.replace(initial_individual_estimates=pd.DataFrame({n: [0.01 * (i + 1 + b) for i in range(3)] for n in etas}, index=pd.Index([1, 2, 3], name='ID')))
+        return m.replace(initial_individual_estimates=make_iie(m, a, b, 0))
 
     def second_dv(m, a, b):
         y = list(m.dependent_variables.keys())[0]
@@ -894,13 +902,15 @@ def RECIPE():
     start = st.sampled_from(range(len(STARTS)))
     data = st.one_of(st.just([]), st.just([]), st.lists(DATAEDIT, max_size=2))
     dose = st.one_of(st.none(), st.none(), st.none(), st.tuples(st.sampled_from([1, 2, 1, 0]), st.integers(0, 1), st.integers(0, 1), st.integers(0, 1)).map(list))
-    plain = st.fixed_dictionaries(dict(start=start, steps=st.lists(STEP_SPEC, min_size=0, max_size=3), data=data, dose=dose))
+    iie = st.one_of(st.none(), st.none(), st.none(), st.none(), st.tuples(st.sampled_from(range(4)), st.sampled_from(range(4)), st.sampled_from(range(4))).map(list))
+    di = st.one_of(st.none(), st.none(), st.none(), st.lists(st.tuples(st.integers(0, 11), st.sampled_from(range(len(CATS))), st.integers(0, 12), st.integers(0, 11)).map(list), min_size=1, max_size=2))
+    plain = st.fixed_dictionaries(dict(start=start, steps=st.lists(STEP_SPEC, min_size=0, max_size=3), data=data, dose=dose, iie=iie, di=di))
     synth = st.fixed_dictionaries(dict(synth=st.one_of(c05.DIRECT, c05.HISTORY, c05.HISTORY), steps=st.lists(STEP_SPEC, min_size=0, max_size=2), data=st.just([])))
     # structure change followed by a renaming that relabels compartments (the history class the property names)
     par = st.integers(0, 7)
     grow = st.tuples(st.sampled_from([op_selector(n) for n in ('add_peripheral', 'transits', 'add_lag', 'add_F', 'effect_cmt', 'metabolite', 'fo_abs')]), par, par).map(list)
     ren = st.tuples(st.sampled_from([op_selector(n) for n in ('rename_amt', 'rename_amt', 'rename_var', 'rename_param', 'rename_amt_back')]), par, par).map(list)
-    relabel = st.fixed_dictionaries(dict(start=st.sampled_from([0, 0, 1, 3, 4, 6, 7]), steps=st.tuples(grow, ren, st.one_of(ren, grow)).map(list), data=st.just([]), dose=dose))
+    relabel = st.fixed_dictionaries(dict(start=st.sampled_from([0, 0, 1, 3, 4, 6, 7]), steps=st.tuples(grow, ren, st.one_of(ren, grow)).map(list), data=st.just([]), dose=dose, iie=iie, di=di))
     relabel_synth = st.fixed_dictionaries(dict(synth=st.one_of(c05.DIRECT, c05.HISTORY), steps=st.lists(ren, min_size=1, max_size=2), data=st.just([])))
     return st.sampled_from(['plain', 'plain', 'plain', 'plain', 'synth', 'synth', 'relabel', 'relabel', 'relabel_synth']).flatmap(
         lambda k: dict(plain=plain, synth=synth, relabel=relabel, relabel_synth=relabel_synth)[k]
@@ -975,6 +985,56 @@ def edit_dataset(model, edits):
             if len(df) > k:
                 df = df.iloc[:-k].reset_index(drop=True)
     return model.replace(dataset=df)
+
+
+def make_iie(model, n_kind, order_kind, col_kind):
+    """frame of initial individual estimates: 3 / 12 / 25 / 11 individuals whose identifiers are ascending,
+    descending, permuted or sparse integers; columns = the first etas, all etas reversed, or ETA_1..ETA_11"""
+    import pandas as pd
+
+    n = [3, 12, 25, 11][n_kind % 4]
+    ids = list(range(1, n + 1))
+    k = order_kind % 4
+    if k == 1:
+        ids = ids[::-1]
+    elif k == 2:
+        ids = [1 + (i * 7) % n for i in range(n)] if n % 7 else [1 + (i * 5) % n for i in range(n)]
+    elif k == 3:
+        ids = [3 * i + (100 if i % 2 else 2) for i in range(n)]
+    etas = list(model.random_variables.etas.names)
+    c = col_kind % 4
+    if c == 0:
+        cols = etas[: 1 + n_kind % 2]
+    elif c == 1:
+        cols = etas[::-1]
+    elif c == 2:
+        cols = [f'ETA_{i}' for i in range(1, 12)]
+    else:
+        cols = etas
+    if not cols:
+        raise ValueError('no etas')
+    return pd.DataFrame({col: [0.01 * (i + 1) * (j + 1) - 0.05 * j for i in range(n)] for j, col in enumerate(cols)}, index=pd.Index(ids, name='ID'))
+
+
+def annotate_columns(model, edits):
+    """ColumnInfo.replace(categories / descriptor / unit) on columns of the model's datainfo: [[column, categories, descriptor, unit], ...]"""
+    from pharmpy.model import ColumnInfo
+
+    di = model.datainfo
+    cols = list(di)
+    if not cols:
+        raise ValueError('no columns')
+    for e in _list(edits)[:3]:
+        ci, cats, desc, unit = (_int(v) for v in _pad(e, 4))
+        i = ci % len(cols)
+        col = cols[i]
+        kw = dict(categories=CATS[cats % len(CATS)])
+        if desc % 3 == 1:
+            kw['descriptor'] = ColumnInfo._all_descriptors[desc % len(ColumnInfo._all_descriptors)]
+        if unit % 3 == 1:
+            kw['unit'] = UNITS[unit % len(UNITS)]
+        cols[i] = col.replace(**kw)
+    return model.replace(datainfo=di.replace(columns=cols))
 
 
 def add_dose_step(model, dose):
@@ -1059,6 +1119,20 @@ def build_model(recipe) -> Built:
         except Exception:  # noqa
             cur2.skipped.append('add_dose')
         cur = cur2
+    for field, label, fn in (
+        ('iie', 'iie', lambda m, v: m.replace(initial_individual_estimates=make_iie(m, *(_int(k) for k in _pad(v, 3))))),
+        ('di', 'annotate_columns', annotate_columns),
+    ):
+        val = recipe.get(field)
+        if isinstance(val, list) and val:
+            cur2 = cur.copy()
+            try:
+                with quiet_ctx():
+                    cur2.model = fn(cur.model, val)
+                cur2.applied.append(label)
+            except Exception:  # noqa
+                cur2.skipped.append(label)
+            cur = cur2
     edits = _list(recipe.get('data'))
     if edits:
         cur2 = cur.copy()
@@ -1251,7 +1325,7 @@ def rt_object(x, cls, label, out, diff=None):
     except Exception as e:  # noqa
         out.append(Violation(f'json-redict-error:{label}:{type(e).__name__}', detail=str(e)[:200]))
         return
-    fp = first_diff(d2, d3)
+    fp = first_diff(d2, d3, ordered=True)
     if fp is not None and len(out) == n0:
         out.append(Violation(f'json-redict-differs:{label}', detail=f'to_dict(from_dict(json form)) differs from the json form at {fp}'))
 
@@ -1434,59 +1508,76 @@ def COMPONENTS():
     return st.sampled_from(kinds).flatmap(lambda k: table[k])
 
 
-def run_components(spec):
+def build_component(spec):
+    """-> (object, classes, nontrivial, render) for a components spec (also used by the worker processes)"""
     from pharmpy.basic import Expr
     from pharmpy.model import Assignment, Statements
 
     spec = _dict(spec)
     kind = spec.get('kind')
-    out = []
     nontrivial = False
     classes = [f'kind={kind}']
     render = None
+    if kind == 'parameters':
+        x = build_parameters(spec)
+        classes.append(f'n={len(x)}')
+    elif kind == 'rvs':
+        x = build_rvs(spec)
+        classes.append('joint' if any(len(d) > 1 for d in x) else 'no-joint')
+    elif kind == 'statements':
+        x, ncomp = build_prog_statements(spec)
+        classes.append(f'ode={ncomp}')
+    elif kind == 'cs':
+        b = build_cs(spec.get('cs'))
+        n = len(b.ref.comps)
+        nd = len(b.ref.dosed())
+        nontrivial = (n >= 3 and b.relabel) or nd >= 2
+        classes += [f'ncomp={min(n, 6)}', f'ndose={nd}', 'relabelled' if b.relabel else 'not-relabelled']
+        x = Statements([Assignment.create('K', Expr.symbol('T1')), b.cs, Assignment.create('Y', Expr.symbol('K') * 2)])
+        render = dict(system=b.ref.render(), ops=b.log)
+    elif kind == 'compartment':
+        x, comp = build_compartment(spec)
+        classes.append(f'doses={len(comp._doses)}')
+        nontrivial = len(comp._doses) >= 2 and bolus_before_infusion(comp)
+    elif kind == 'datainfo':
+        x = build_datainfo(spec)
+        classes.append('categories' if any(c.categories is not None for c in x) else 'no-categories')
+        if any(isinstance(c.categories, tuple) and any(isinstance(v, str) for v in c.categories) for c in x):
+            classes.append('string-categories')
+    elif kind == 'steps':
+        x = build_steps(spec)
+        classes.append(f'n={len(x)}')
+    elif kind == 'expr':
+        x = build_expr(spec)
+    elif kind == 'matrix':
+        x = build_matrix(spec)
+    elif kind == 'model':
+        b = build_model(spec.get('recipe'))
+        x = b.model
+        f = b.facts()
+        nontrivial = f['nontrivial']
+        classes += [f'start={b.start}', f"ncomp={min(f['ncomp'], 6)}", f"ndose={f['ndose']}"] + [f'op:{a.split(":")[0]}' for a in b.applied]
+        ie = x.initial_individual_estimates
+        if ie is not None:
+            classes.append(iie_class(ie))
+        render = dict(start=b.start, applied=b.applied, skipped=b.skipped)
+    else:
+        raise Reject('unknown kind')
+    if bolus_before_infusion(x):
+        classes.append('bolus-before-infusion')
+    return x, classes, nontrivial, render
+
+
+def iie_class(ie):
+    rows = [str(i) for i in ie.index]
+    cols = [str(c) for c in ie.columns]
+    return 'iie:labels-not-string-sorted' if rows != sorted(rows) or cols != sorted(cols) else 'iie:labels-sorted'
+
+
+def run_components(spec):
+    out = []
     with quiet_ctx():
-        if kind == 'parameters':
-            x = build_parameters(spec)
-            classes.append(f'n={len(x)}')
-        elif kind == 'rvs':
-            x = build_rvs(spec)
-            classes.append('joint' if any(len(d) > 1 for d in x) else 'no-joint')
-        elif kind == 'statements':
-            x, ncomp = build_prog_statements(spec)
-            classes.append(f'ode={ncomp}')
-        elif kind == 'cs':
-            b = build_cs(spec.get('cs'))
-            n = len(b.ref.comps)
-            nd = len(b.ref.dosed())
-            nontrivial = (n >= 3 and b.relabel) or nd >= 2
-            classes += [f'ncomp={min(n, 6)}', f'ndose={nd}', 'relabelled' if b.relabel else 'not-relabelled']
-            x = Statements([Assignment.create('K', Expr.symbol('T1')), b.cs, Assignment.create('Y', Expr.symbol('K') * 2)])
-            render = dict(system=b.ref.render(), ops=b.log)
-        elif kind == 'compartment':
-            x, comp = build_compartment(spec)
-            classes.append(f'doses={len(comp._doses)}')
-            nontrivial = len(comp._doses) >= 2 and bolus_before_infusion(comp)
-        elif kind == 'datainfo':
-            x = build_datainfo(spec)
-            classes.append('categories' if any(c.categories is not None for c in x) else 'no-categories')
-        elif kind == 'steps':
-            x = build_steps(spec)
-            classes.append(f'n={len(x)}')
-        elif kind == 'expr':
-            x = build_expr(spec)
-        elif kind == 'matrix':
-            x = build_matrix(spec)
-        elif kind == 'model':
-            b = build_model(spec.get('recipe'))
-            x = b.model
-            f = b.facts()
-            nontrivial = f['nontrivial']
-            classes += [f'start={b.start}', f"ncomp={min(f['ncomp'], 6)}", f"ndose={f['ndose']}"] + [f'op:{a.split(":")[0]}' for a in b.applied]
-            render = dict(start=b.start, applied=b.applied, skipped=b.skipped)
-        else:
-            raise Reject('unknown kind')
-        if bolus_before_infusion(x):
-            classes.append('bolus-before-infusion')
+        x, classes, nontrivial, render = build_component(spec)
         rt_tree(x, out)
     raise_first(out)
     return CaseInfo(nontrivial=nontrivial, classes=tuple(classes), render=render if render is not None else _short(x, 400))
@@ -1525,13 +1616,15 @@ def run_generic_code(spec):
         code2 = guard(lambda: g2.code, allowed=(), clause='generic-code-error')
         if code2 != code:
             try:
-                where = first_diff(json.loads(code), json.loads(code2))
+                where = first_diff(json.loads(code), json.loads(code2), ordered=True)
             except Exception:  # noqa
                 where = '?'
             raise Violation('generic-code-not-fixed-point', detail=f'code of the re-read model differs at {where}; applied={b.applied}')
     classes = [f'start={b.start}', f"ncomp={min(f['ncomp'], 6)}", f"ndose={f['ndose']}"] + [f'op:{a.split(":")[0]}' for a in b.applied]
     if bolus_before_infusion(b.model):
         classes.append('bolus-before-infusion')
+    if b.model.initial_individual_estimates is not None:
+        classes.append(iie_class(b.model.initial_individual_estimates))
     return CaseInfo(nontrivial=f['nontrivial'], classes=tuple(classes), render=dict(start=b.start, applied=b.applied, skipped=b.skipped), evals=2)
 
 
@@ -1545,13 +1638,42 @@ _VIOLATION_SEEN = [0]
 SHRINK_LAUNCHES = 10
 
 
+def PROCESS_COMPONENTS():
+    """cheap component specs whose to_dict() text is compared between the interpreters"""
+    table = dict(parameters=PARAMS_SPEC, rvs=RVS_SPEC(), statements=PROG_SPEC(), cs=CS_SPEC(), datainfo=DATAINFO_SPEC, steps=STEPS_SPEC, compartment=COMPARTMENT_SPEC)
+    kinds = ['datainfo'] * 5 + ['steps'] * 3 + ['rvs'] * 2 + ['cs'] * 3 + ['parameters', 'statements', 'compartment']
+    return st.sampled_from(kinds).flatmap(lambda k: table[k])
+
+
 def PROCESS_SPEC():
-    return st.fixed_dictionaries(dict(recipes=st.lists(RECIPE(), min_size=8, max_size=12), seed=st.integers(3, 4294967295)))
+    return st.fixed_dictionaries(dict(recipes=st.lists(RECIPE(), min_size=8, max_size=12), comps=st.lists(PROCESS_COMPONENTS(), min_size=20, max_size=30), seed=st.integers(3, 4294967295)))
+
+
+def component_record(spec):
+    """to_dict() of a generated component as JSON text digest (+ the text itself when short)"""
+    try:
+        with quiet_ctx():
+            x, classes, _, _ = build_component(spec)
+    except Reject as r:
+        return dict(reject=r.why[:200])
+    except (Violation, HarnessError) as v:
+        return dict(reject=f'builder: {getattr(v, "clause", v)}'[:200])
+    try:
+        d = x.to_dict()
+        text = json.dumps(jnorm(d), default=repr)
+    except Exception as e:  # noqa
+        return dict(error=f'{type(e).__name__}: {str(e)[:160]} @ {innermost_pharmpy_frame(e)}')
+    rec = dict(kind=spec.get('kind'), classes=classes, raw=hashlib.sha256(text.encode()).hexdigest()[:16], can=digest(d, True))
+    if len(text) <= 6000:
+        rec['text'] = text
+    return rec
 
 
 def worker_record(recipe):
     from pharmpy.workflows.hashing import ModelHash
 
+    if isinstance(recipe, dict) and 'kind' in recipe:
+        return component_record(recipe)
     rec = {}
     try:
         b = build_model(recipe)
@@ -1665,23 +1787,34 @@ def run_batch(recipes, seeds):
     return res
 
 
+def _text_diff(a, b):
+    n = next((i for i, (x, y) in enumerate(zip(a, b)) if x != y), min(len(a), len(b)))
+    return f'...{a[max(0, n - 60):n + 60]}...  vs  ...{b[max(0, n - 60):n + 60]}...'
+
+
 def run_hash_process(spec):
     spec = _dict(spec)
-    recipes = [r for r in _list(spec.get('recipes'))[:14] if isinstance(r, dict)]
-    if not recipes:
+    recipes = [r for r in _list(spec.get('recipes'))[:14] if isinstance(r, dict) and 'kind' not in r]
+    comps = [c for c in _list(spec.get('comps'))[:30] if isinstance(c, dict) and c.get('kind') in ('parameters', 'rvs', 'statements', 'cs', 'datainfo', 'steps', 'compartment')]
+    if not recipes and not comps:
         raise Reject('no recipes')
     s4 = 3 + abs(_int(spec.get('seed'))) % 4294967293
     seeds = [0, 1, 2, s4]
-    res = run_batch(recipes, seeds)
+    items = recipes + comps
+    res = run_batch(items, seeds)
     classes = []
     nt = 0
     evals = 0
     render = []
+
+    def outcome_differs(recs):
+        kinds = {('reject', r.get('reject')) if 'reject' in r else ('error', r.get('error')) if 'error' in r else ('ok', None) for r in recs}
+        return len(kinds) > 1
+
     for i, recipe in enumerate(recipes):
         recs = [res[s][i] for s in seeds]
         if any('reject' in r or 'error' in r for r in recs):
-            kinds = {('reject', r.get('reject')) if 'reject' in r else ('error', r.get('error')) if 'error' in r else ('ok', None) for r in recs}
-            if len(kinds) > 1:
+            if outcome_differs(recs):
                 classes.append('seed-dependent-build-outcome')
             elif 'error' in recs[0]:
                 classes.append('hash-or-to_dict-error')
@@ -1693,15 +1826,21 @@ def run_hash_process(spec):
         hashes = {r['hash'] for r in recs}
         r0 = recs[0]
         if len(fps) > 1:
-            classes.append('seed-dependent-content')
-            continue
-        if len(hashes) > 1:
-            comps = sorted(k for k in r0['raw'] if len({r['raw'][k] for r in recs}) > 1)
+            # the content itself (order-insensitive form of to_dict + dataset) depends on the interpreter
+            comps_ = sorted(k for k in r0['can'] if len({r['can'][k] for r in recs}) > 1) or (['dataset'] if len({r['data'] for r in recs}) > 1 else ['?'])
             _VIOLATION_SEEN[0] = max(1, _VIOLATION_SEEN[0])
             raise Violation(
-                f'process-key-differs[{",".join(comps) or "hashing"}]', observed={str(s): r['hash'] for s, r in zip(seeds, recs)}, expected='one key',
+                f'process-content-differs[{",".join(comps_)}]', observed={str(s): r['hash'] for s, r in zip(seeds, recs)}, expected='one model, one key',
+                detail=f'the same construction steps give a different model (and key) in interpreters with PYTHONHASHSEED {seeds}: the order-insensitive form of to_dict() differs in {comps_}; '
+                f'start={r0.get("start")} applied={r0.get("applied")}',
+            )
+        if len(hashes) > 1:
+            comps_ = sorted(k for k in r0['raw'] if len({r['raw'][k] for r in recs}) > 1)
+            _VIOLATION_SEEN[0] = max(1, _VIOLATION_SEEN[0])
+            raise Violation(
+                f'process-key-differs[{",".join(comps_) or "hashing"}]', observed={str(s): r['hash'] for s, r in zip(seeds, recs)}, expected='one key',
                 detail=f'same recipe, same order-insensitive content fingerprint {r0["fp"]} in all interpreters, but ModelHash differs between PYTHONHASHSEED {seeds}; '
-                f'start={r0.get("start")} applied={r0.get("applied")}; to_dict components that differ: {comps}',
+                f'start={r0.get("start")} applied={r0.get("applied")}; to_dict components that differ: {comps_}',
             )
         if r0.get('nontrivial'):
             nt += 1
@@ -1709,10 +1848,32 @@ def run_hash_process(spec):
                 render.append(dict(start=r0.get('start'), applied=r0.get('applied'), ncomp=r0.get('ncomp'), ndose=r0.get('ndose'), key=r0['hash']))
         classes.append(f"start={r0.get('start')}")
         classes.append(f"ncomp={min(r0.get('ncomp', 0), 6)}")
+        for a in r0.get('applied', []):
+            if a in ('annotate_columns', 'iie', 'add_dose'):
+                classes.append(f'op:{a}')
         if r0.get('ndose', 0) >= 2:
             classes.append('two-dosing-compartments')
         if r0.get('relabel'):
             classes.append('relabelled')
+    for j, cspec in enumerate(comps):
+        recs = [res[s][len(recipes) + j] for s in seeds]
+        if any('reject' in r or 'error' in r for r in recs):
+            classes.append('seed-dependent-build-outcome' if outcome_differs(recs) else 'component-rejected')
+            continue
+        evals += len(seeds)
+        r0 = recs[0]
+        if len({r['raw'] for r in recs}) > 1:
+            other = next(r for r in recs if r['raw'] != r0['raw'])
+            where = _text_diff(r0['text'], other['text']) if 'text' in r0 and 'text' in other else '(long text)'
+            order_only = len({r['can'] for r in recs}) == 1
+            _VIOLATION_SEEN[0] = max(1, _VIOLATION_SEEN[0])
+            raise Violation(
+                f"process-to_dict-differs:{r0.get('kind')}" + (':graph-or-mapping-order' if order_only else ''), observed={str(s): r['raw'] for s, r in zip(seeds, recs)}, expected='one text',
+                detail=f'to_dict() of the same generated {r0.get("kind")} differs between interpreters with PYTHONHASHSEED {seeds}: {where}',
+            )
+        for c in r0.get('classes', []):
+            if c.startswith('kind=') or c in ('string-categories', 'categories', 'joint'):
+                classes.append('component:' + c)
     classes.append(f'nontrivial-recipes={min(nt, 5)}{"+" if nt >= 5 else ""}')
     return CaseInfo(nontrivial=nt >= 1, classes=tuple(sorted(set(classes))), render=render or None, evals=max(1, evals))
 
@@ -2173,9 +2334,9 @@ def selfcheck():
 # hash_process first: its shards mostly wait for their interpreters, so they should not be the tail of the run
 SUBCHECKS = [
     SubCheck('hash_process', PROCESS_SPEC, run_hash_process, quick=16, thorough=96, quick_time=600.0, thorough_time=3000.0),
-    SubCheck('components', COMPONENTS, run_components, quick=3000, thorough=20710, quick_time=600.0, thorough_time=3000.0),
+    SubCheck('components', COMPONENTS, run_components, quick=2600, thorough=20710, quick_time=600.0, thorough_time=3000.0),
     SubCheck('generic_code', GENERIC_SPEC, run_generic_code, quick=300, thorough=2070, quick_time=600.0, thorough_time=3000.0),
-    SubCheck('hash_content', CONTENT_SPEC, run_hash_content, quick=1200, thorough=8280, quick_time=600.0, thorough_time=3000.0),
+    SubCheck('hash_content', CONTENT_SPEC, run_hash_content, quick=1000, thorough=8280, quick_time=600.0, thorough_time=3000.0),
 ]
 
 
